@@ -192,9 +192,11 @@ if 'expected_image' in p:
     if rec is None or rec.shape != E.shape:
         ok = False; msg = 'shape %%r, expected %%r' %% (None if rec is None else rec.shape, E.shape)
     else:
-        err = float(np.abs(rec - E).max()); ok = err <= p['tol']; msg = 'max |image - expected| = %%g' %% err
+        fin = np.isfinite(E); err = float(np.abs(rec - E)[fin].max()) if fin.any() else 0.0
+        ok = err <= p['tol'] and not np.any(np.isfinite(rec[~fin])); msg = 'max |image - expected| = %%g' %% err
 if ok and 'expected_cos' in p:
-    E = arr(p['expected_cos']); err = float(np.abs(dist.cos() - E).max()); ok = err <= p['tol']
+    E = arr(p['expected_cos']); fin = np.isfinite(E)
+    err = float(np.abs(dist.cos() - E)[fin].max()) if fin.any() else 0.0; ok = err <= p['tol']
     msg = 'max |cos - expected| = %%g' %% err
 if ok and 'expected_valid' in p:
     ok = all((not g) or e for g, e in zip(map(bool, dist.valid), p['expected_valid'])); msg = 'valid flags %%r' %% (list(map(bool, dist.valid)),)
@@ -225,7 +227,7 @@ def expected_valid(shape, row, col, W, R):
     return [bool(v > 0) for v in p0[:R + 1]]
 
 
-def search(ctx, rng, budget):
+def search(ctx, rng, budget, stats):
     hits, n_eval, distinct, samples = [], 0, set(), []
 
     def add(clause, key, what, params, data=None):
@@ -276,18 +278,26 @@ def search(ctx, rng, budget):
         if len(samples) < 5:
             samples.append(dict(shape=[h, w], origin=repr(o), rmax=rm, order=order, odd=odd, out=out, direction=direction,
                                 reg=repr(reg), weights=W is not None, rmax_resolved=int(R)))
-        if recon.shape != shp or not np.all(np.abs(recon - E) <= tol):
+        nonfinite = not np.all(np.isfinite(cn))
+        if nonfinite:
+            # (seen for reg=('SVD', s) when some radius has no data: the masked matrix has zero
+            #  singular values which the code inverts -- outside the clauses of C16; image and
+            #  synthesis are then compared where the synthesis is finite)
+            stats['nonfinite_distributions'] = stats.get('nonfinite_distributions', 0) + 1
+            stats.setdefault('nonfinite_example', 'shape %dx%d origin %r rmax %r order %d odd %s reg %r' % (h, w, o, rm, order, odd, reg))
+        fin = np.isfinite(E) if recon.shape == shp else None
+        if recon.shape != shp or not np.all(np.abs(recon - E)[fin] <= tol) or np.any(np.isfinite(recon[~fin])):
             add('image-is-synthesis', 'C16:synthesis:' + tag,
                 'returned image (shape %r) is not the synthesis of the returned distributions about the origin '
                 '(expected shape %r): %s' % (recon.shape, shp, 'shape differs' if recon.shape != shp else
-                                             'max difference %.3g' % float(np.abs(recon - E).max())),
+                                             'max difference %.3g' % float(np.nanmax(np.abs(recon - E)))),
                 dict(clause='image = synthesis(distr)', call=kdict(IM, o, rm, order, odd, out, W, direction, reg),
                      expected_image=E.tolist(), tol=float(tol)))
             continue
         # 2. the other out values (and None) give the same distributions
         out2 = ([None] + OUTS)[rng.integers(6)]
         rec2, distr2 = call(IM, out=out2, **kw)
-        if not np.array_equal(distr2.cos(), cn) or not np.array_equal(distr2.valid, distr.valid) or (out2 is None) != (rec2 is None):
+        if not np.array_equal(distr2.cos(), cn, equal_nan=True) or not np.array_equal(distr2.valid, distr.valid) or (out2 is None) != (rec2 is None):
             add('distr-independent-of-out', 'C16:distr-depends-on-out:%s:%s' % (out, out2),
                 'distributions differ between out=%r and out=%r' % (out, out2),
                 dict(clause='same distributions for every out', call=kdict(IM, o, rm, order, odd, out2, W, direction, reg),
@@ -296,7 +306,8 @@ def search(ctx, rng, budget):
         if W is not None and np.any(W == 0):
             IM3 = np.where(W == 0, rng.normal(size=(h, w)) * 50, IM)
             rec3, distr3 = call(IM3, out=out, **kw)
-            if not (np.allclose(distr3.cos(), cn, rtol=0, atol=tol) and np.allclose(rec3, recon, rtol=0, atol=tol)):
+            if not (np.allclose(distr3.cos(), cn, rtol=0, atol=tol, equal_nan=True)
+                    and np.allclose(rec3, recon, rtol=0, atol=tol, equal_nan=True)):
                 add('zero-weight', 'C16:zero-weight-pixels-matter:' + tag, 'changing zero-weight pixels changes the result',
                     dict(clause='zero-weight pixels ignored', call=kdict(IM3, o, rm, order, odd, out, W, direction, reg),
                          expected_image=recon.tolist(), expected_cos=cn.tolist(), tol=float(tol)))
@@ -312,7 +323,7 @@ def search(ctx, rng, budget):
                 % (gv, ev),
                 dict(clause='radii without data are flagged', call=kdict(IM, o, rm, order, odd, out, W, direction, reg),
                      expected_valid=ev))
-        elif reg is None and not np.all(cn[:, ~np.asarray(distr.valid, bool)] == 0):
+        elif reg is None and not np.all(cn[:, ~np.asarray(distr.valid, bool)] == 0):  # noqa
             add('invalid-zero', 'C16:invalid-radii-nonzero:' + tag, 'flagged radii are not zero in an unregularised transform',
                 dict(clause='flagged radii are zero', call=kdict(IM, o, rm, order, odd, out, W, direction, reg)))
         # 5. abel.Transform wrapper
@@ -323,7 +334,7 @@ def search(ctx, rng, budget):
                 warnings.simplefilter('ignore')
                 T = abel.Transform(IM, method='rbasex', direction=direction,
                                    transform_options=dict(origin=o, rmax=rm, order=order, odd=odd, weights=W, reg=reg, out=out))
-            if not (np.array_equal(T.transform, recon) and np.array_equal(T.distr.cos(), cn)):
+            if not (np.array_equal(T.transform, recon, equal_nan=True) and np.array_equal(T.distr.cos(), cn, equal_nan=True)):
                 add('transform-wrapper', 'C16:Transform-wrapper-differs:' + tag,
                     "abel.Transform(method='rbasex') returns another image or distributions", dict(clause='wrapper'))
         # 6. history: the same parameters with another out first, no clean-up
@@ -333,8 +344,8 @@ def search(ctx, rng, budget):
             call(IM, fresh=False, out=out0, **kw)
             recH, distrH = call(IM, fresh=False, out=out, **kw)
             n_eval += 1
-            if recH.shape != recon.shape or not np.allclose(recH, recon, rtol=0, atol=tol) \
-                    or not np.allclose(distrH.cos(), cn, rtol=0, atol=tol):
+            if recH.shape != recon.shape or not np.allclose(recH, recon, rtol=0, atol=tol, equal_nan=True) \
+                    or not np.allclose(distrH.cos(), cn, rtol=0, atol=tol, equal_nan=True):
                 g0 = out_geometry((h, w), row, col, R, odd_r, out0)
                 add('history', 'C16:ibs-cache-not-keyed-by-output-geometry',
                     'after a call with out=%r the same image with out=%r returns %s than with fresh caches (shape %r vs %r)'
@@ -370,7 +381,9 @@ def run(ctx):
     ctx.cov.update(traces_validated_against_impl=n_ok, correspondence_cases=n_cases,
                    correspondence_disagreements=len(bad), input_distribution=dist)
     broken = bool(trans_err) or (not pr['ok']) or bad or errors
-    hits, n_eval, n_distinct, samples = search(ctx, rng, (120 if ctx.quick else 1500) * (3 if broken else 1))
+    stats = {}
+    hits, n_eval, n_distinct, samples = search(ctx, rng, (120 if ctx.quick else 1500) * (3 if broken else 1), stats)
+    ctx.cov.update(search_stats=stats)
     ctx.cov.update(evaluations=n_eval + n_cases, distinct_nontrivial=n_distinct,
                    rule='search: random images 3..29 squared, origin tuple (incl. negative) or location string, rmax keyword or '
                         'integer, order 0..8, odd on/off, both directions, reg in {None, L2, diff, SVD, pos}, weights None or '
